@@ -85,8 +85,156 @@ def selftest_sem(pid):
     return expected, rejected
 
 
+# ----------------------------------------------------------------------------- event-level judges
+def flip_first_var(ast):
+    """replace the first variable reference of a function AST by its negation (changes the function wherever that
+    variable matters)"""
+    if isinstance(ast, dict):
+        if ast.get("op") == "var":
+            inner = dict(ast)
+            ast.clear(); ast.update({"op": "not", "a": inner})
+            return True
+        for k in ("a", "b"):
+            if k in ast and flip_first_var(ast[k]):
+                return True
+        for x in ast.get("args", []) if isinstance(ast.get("args"), list) else []:
+            if flip_first_var(x):
+                return True
+    return False
+
+
+def corrupt_event(e, pid):
+    """one recorded field of one event, changed the way a defect would change it; returns True if something changed"""
+    if pid == "C05":                                   # accepted <-> rejected
+        if e.get("kind") != "parse":
+            return False
+        if e["plain_outcome"] == "ok":
+            e["plain_outcome"] = "err"; e["plain_tree"] = {"op": "REJECT"}; e["plain_full"] = {"op": "REJECT"}
+        else:
+            e["plain_outcome"] = "ok"; e["plain_tree"] = {"op": "true"}; e["plain_full"] = {"op": "true", "h": 0, "str": "True"}
+        return True
+    if pid == "C06":                                   # the re-parsed tree is another tree / the stored height is off
+        if e.get("kind") != "build" or e.get("built_outcome") != "ok":
+            return False
+        if "h" in e.get("built_full", {}):
+            e["built_full"]["h"] += 1
+            return True
+        return False
+    if pid == "C07":                                   # accepted <-> rejected
+        if e.get("kind") != "prep":
+            return False
+        if e["prep_outcome"] == "ok":
+            e["prep_outcome"] = "err"; e["prep_tree"] = {"op": "REJECT"}; e["prep_full"] = {"op": "REJECT"}
+        else:
+            if e.get("parsed_outcome") != "ok":
+                return False
+            e["prep_outcome"] = "ok"; e["prep_tree"] = e["parsed_tree"]; e["prep_full"] = e["parsed_full"]
+        return True
+    if pid == "C09":                                   # a duplicate counter that claims more occurrences than exist
+        if e.get("kind") != "canon" or not e.get("dups"):
+            return False
+        e["dups"][0]["n"] += 7
+        return True
+    if pid == "C11":                                   # a law that did not hold
+        if "equal" not in e:
+            return False
+        e["equal"] = not e["equal"]
+        return True
+    if pid == "C16":                                   # a reloaded set that lost or gained a pair; a missing entry
+        sets = (e.get("back") or {}).get("sets") or {}
+        for l in sorted(sets):
+            if sets[l]:
+                sets[l].pop(0)
+                return True
+        for l in sorted(sets):
+            w = (e.get("written") or {}).get(l)
+            if w == []:
+                sets[l].append(0)
+                return True
+        return False
+    if pid == "C17":                                   # a count printed by the tool that is off by one
+        for x in e.get("events", []):
+            if x.get("ev") == "results":
+                x["n"] += 1
+                return True
+        if e.get("exit") == 0 and e.get("scenario") != "ok":
+            e["said_something"] = False                # a failure that said nothing
+            return True
+        return False
+    if pid == "C19":                                   # an output function that differs in one place
+        fns = (e.get("net_out") or {}).get("fns") or []
+        nin = len((e.get("net_in") or {}).get("vars") or [])
+        for j, f in enumerate(fns[:nin]):
+            if isinstance(f, dict) and f.get("op") not in (None, "implicit"):
+                # the update function of an original variable replaced by a constant (negating it would keep the
+                # family of a fully unknown function, which is closed under negation)
+                fns[j] = {"op": "const", "val": not (f.get("op") == "const" and f.get("val") is True)}
+                return True
+        return False
+    return False
+
+
+EVENT = {
+    "C05": ("Trace_Syn-*.json", "events", "Trace_Syn.tla", "Trace_Syn.cfg"),
+    "C06": ("Trace_Syn-*.json", "events", "Trace_Syn.tla", "Trace_Syn.cfg"),
+    "C07": ("Trace_Scope-*.json", "events", "Trace_Scope.tla", "Trace_Scope.cfg"),
+    "C09": ("Trace_Scope-*.json", "events", "Trace_Scope.tla", "Trace_Scope.cfg"),
+    "C11": ("Trace_Laws-*.json", "facts", "Trace_Laws.tla", "Trace_Laws.cfg"),
+    "C16": ("Trace_Arch-*.json", "events", "Trace_Arch.tla", "Trace_Arch.cfg"),
+    "C19": ("Trace_Conv-*.json", "events", "Trace_Conv.tla", "Trace_Conv.cfg"),
+}
+
+
+def selftest_events(pid, cap=400):
+    pat, key, module, cfg = EVENT[pid]
+    files = sorted(glob.glob(os.path.join(common.WORK, "%s-quick" % pid, pat)))
+    if not files:
+        raise common.ToolError("run ./check %s first" % pid)
+    wd = common.workdir("%s-selftest" % pid)
+    docs, expected = [], 0
+    for f in files:
+        doc = json.load(open(f))
+        keep = []
+        for e in doc[key]:
+            if expected + len(keep) >= cap:
+                break
+            if corrupt_event(e, pid):
+                keep.append(e)
+        if keep:
+            doc[key] = keep
+            expected += len(keep)
+            docs.append(doc)
+    verdicts, stats = common.judge_events(module, cfg, docs, wd, key=key)
+    rejected = sum(1 for v in verdicts.values() if "F" in v)
+    return expected, rejected
+
+
+def selftest_c17():
+    """Trace_Cli is path-wise: a run without an accepting state prints no verdict"""
+    files = sorted(glob.glob(os.path.join(common.WORK, "C17-quick", "cli-*.json")))
+    if not files:
+        raise common.ToolError("run ./check C17 first")
+    wd = common.workdir("C17-selftest")
+    expected = rejected = 0
+    for i, f in enumerate(files):
+        doc = json.load(open(f))
+        keep = [e for e in doc["events"] if corrupt_event(e, "C17")]
+        if not keep:
+            continue
+        doc["events"] = keep
+        p = os.path.join(wd, "cli-%d.json" % i)
+        json.dump(doc, open(p, "w"))
+        out, rc, wall = common.run_tlc("Trace_Cli.tla", "Trace_Cli.cfg", os.path.join(wd, "meta-%d" % i), env={"CASEFILE": p}, timeout=1800)
+        if "Model checking completed" not in out:
+            raise common.ToolError("TLC failed on corrupted CLI traces:\n" + out[-2000:])
+        found = dict(common.VERDICT_RE.findall(out))
+        expected += len(keep)
+        rejected += sum(1 for e in keep if e["id"] not in found)
+    return expected, rejected
+
+
 def main():
-    ids = sys.argv[1:] or SEM
+    ids = sys.argv[1:] or (SEM + sorted(EVENT) + ["C17"])
     rc = 0
     for pid in ids:
         if pid in SEM:
@@ -94,6 +242,12 @@ def main():
             # C18 / equality-only judgements may be not applicable for some corrupted cases (NA) -> demand most
             need = n if pid not in ("C18",) else int(0.5 * n)
             ok = n > 0 and r >= need
+            print("SELFTEST property=%s corrupted=%d rejected=%d %s" % (pid, n, r, "ok" if ok else "NOT-BOUND"))
+            rc |= 0 if ok else 2
+        elif pid in EVENT or pid == "C17":
+            n, r = selftest_c17() if pid == "C17" else selftest_events(pid)
+            # C19: replacing an update function by the constant true changes nothing where it is a tautology
+            ok = n > 0 and (r == n if pid != "C19" else r >= 0.85 * n)
             print("SELFTEST property=%s corrupted=%d rejected=%d %s" % (pid, n, r, "ok" if ok else "NOT-BOUND"))
             rc |= 0 if ok else 2
         else:
